@@ -511,12 +511,13 @@ update_from_seq(PyObject *map, PyObject *seq)
         INCREF of the seq argument.  So seq must always be DECREFed on
         the way out.
     */
-    /* Use items() if it's not a sequence.  Alas, PySequence_Check()
-     * returns true for a PeristentMapping or PersistentDict, and we
-     * want to use items() in those cases too.
+    /* Use items() if it "looks like a dict" (PySequence_Check() returns
+     * true for a PeristentMapping or PersistentDict, and we want to use
+     * items() in those cases too).  Anything else is iterated as it is:
+     * a sequence of pairs, or any other iterable of pairs (a generator,
+     * as the pure-Python implementation accepts).
      */
-    if (!PySequence_Check(seq) || /* or it "looks like a dict" */
-        PyObject_HasAttrString(seq, "items"))
+    if (PyObject_HasAttrString(seq, "items"))
     {
         PyObject *items;
         items = PyObject_GetAttrString(seq, "items");
